@@ -34,6 +34,16 @@ def gen(chk):
         # and verify a python-made signature on the same message (checks the challenge hash at this length)
         sig = schnorr_sign(d, m, r.seckey()); Q = mul(d, G); X = lift_x(Q[0])
         chk.add('schnorrsig_verify %s %s %s' % (sig.hex(), hx(m), pk_obj(X)), 'verify_len')
+    # the default nonce function named explicitly (documented to behave like NULL), with and without auxiliary data,
+    # keys of both parities, several lengths; and the exported function called directly with various tags
+    for L in [0, 1, 31, 32, 33, 55, 56, 64, 100, 300]:
+        for d in (evens[:2] + odds[:2]):
+            m = r.bytes(L)
+            chk.add('schnorrsig_sign_custom %s %s %s #1 %s' % (hx(m), kp(d), MAGIC, opt(None if r.chance(1, 2) else r.bytes(32))), 'sign_custom_explicit_default_nonce')
+    for i in range(chk.scale(30, 300)):
+        m = r.bytes(r.choice([0, 1, 32, 33, 64, 200])); key = r.bytes(32); pk = r.bytes(32)
+        algo = r.choice([None, b'BIP0340/nonce', b'BIP0340/nonc', b'BIP0340/nonce\x00', b'', b'MuSig/nonce', r.bytes(r.below(70))])
+        chk.add('nonce_function_bip340 %s %s %s %s %s' % (hx(m), key.hex(), pk.hex(), '-' if algo is None else hx(algo), opt(None if r.chance(1, 2) else r.bytes(32))), 'nonce_function_direct')
     # custom nonce functions: fixed nonce (0, n -> fail; 1, n-1 ok), failing callback, bad magic
     for nd in (0, N, 1, N - 1, N + 1, (1 << 256) - 1, r.seckey()):
         chk.add('schnorrsig_sign_custom %s %s %s #2 %s' % (r.bytes(32).hex(), kp(r.choice(keys)), MAGIC, h32(nd)), 'sign_custom_nonce')
